@@ -151,11 +151,22 @@ pub fn check(o: &FOutcome) -> Checked {
         _ => None,
     });
     let is_final = o.evs.iter().any(|(_, _, e)| matches!(e, FEv::Op(s) if s == "final"));
-    if let (Some((ts, live, expect, active, depth)), true) = (final_barrier, is_final) {
+    // the size is read 20 idle virtual seconds after the final barrier ("quiesced pool=P live=L"): at the barrier itself a worker
+    // that was retired by a shrink may still be on its way out (active 0, yet a child for a few more milliseconds) - the first
+    // formulation, which read the barrier, raised a false alarm on exactly that (§6)
+    let quiesced = o.evs.iter().rev().find_map(|(ts, _, e)| match e {
+        FEv::Op(s) if s.starts_with("quiesced pool=") => {
+            let p = s.split("pool=").nth(1)?.split(' ').next()?.parse::<usize>().ok()?;
+            let l = s.split("live=").nth(1)?.parse::<usize>().ok()?;
+            Some((*ts, p, l))
+        }
+        _ => None,
+    });
+    if let (Some((_bts, _live, _expect, active, depth)), true, Some((ts, expect, live))) = (final_barrier, is_final, quiesced) {
         if expect > 0 && active == 0 && depth == 0 && live != expect {
             // discriminating fact: a worker above the requested size died while it was draining and was replaced
             let sig = if live > expect && deaths > 0 { "pool-size extra-worker-after-death-of-draining-worker" } else { "pool-size" };
-            v.push(("pool-size".into(), format!("at quiescence (#{ts}) the factory has {live} live workers, the last requested non-zero size is {expect} (worker exits so far: {deaths})"), sig.into()));
+            v.push(("pool-size".into(), format!("after 20 idle virtual seconds (#{ts}) the factory has {live} live workers, the last requested non-zero size is {expect} (worker exits so far: {deaths})"), sig.into()));
         }
     }
     // --- rate limited jobs
